@@ -232,7 +232,7 @@ CHECKS = {
             "For the enumerated cases an image the independent checker rejects (block out of range / in fixed "
             "metadata / doubly owned, bitmap or count differing from usage, link count or reachability, "
             "malformed extent tree / directory block / htree node, failing metadata checksum) never gets "
-            "exit 0 from e2fsck -fn, except for the listed inputs (three root causes, 15 inputs).",
+            "exit 0 from e2fsck -fn, except for the listed inputs (four root causes, 19 inputs).",
             "Both universes were soaked completely; quick runs a seeded sample (2000 + 1000). The oracle is "
             "calibrated to be silent on the corpus and on the e2fsck-accepted images of tests/*/image.gz; it "
             "judges only the five families of the statement.",
